@@ -109,6 +109,20 @@ def gen_plan(rng, i: int, tier: str) -> dict:
         plan.pop("conn_flap", None)  # (one fault family per plan: the second call needs the first one's blob)
         return plan
     if r2.random() < 0.08:
+        # one cache with a history: blobs made under the OTHER (e.g. superseded) root key were opened on it, then a protect that names
+        # no root key: the request must still carry a NULL root key id (the DC picks the current key)
+        plan["ops"] = [{"op": "unprotect", "fl": "sync", "net": "online", "cache": "shared",
+                        "blob": {"rk": 1, "sid": sid_m, "pos": [cur[0] - rng.randint(0, 2), rng.randrange(32), rng.randrange(32)] if rng.random() < 0.7 else list(cur), "mode": "nonce",
+                                 "trailing": False, "data": 9, "domain": dn or "x.test", "forest": fn}},
+                       {"op": "protect", "fl": "sync", "sid": sid_m, "rk": None, "net": "online", "data": 16, "cache": "shared", "domain_name": "corp.example"},
+                       {"op": "protect", "fl": "sync", "sid": sid_o, "rk": None, "net": "online", "data": 16, "cache": "shared", "domain_name": "corp.example"}]
+        if tuple(plan["ops"][0]["blob"]["pos"]) > cur:
+            plan["ops"][0]["blob"]["pos"] = list(cur)
+        plan["concurrent"] = False
+        plan["cache_with_history"] = True
+        plan.pop("conn_flap", None)
+        return plan
+    if r2.random() < 0.08:
         # one cache shared by calls that are in flight at the same time (async tasks of one loop / caller threads): blobs of different
         # L0 epochs, so that every call has to fetch its own key
         plan["ops"] = [{"op": "unprotect", "fl": "sync", "net": "online", "cache": "shared",
@@ -181,6 +195,8 @@ def judge_one(plan, tr: P.Trace, fl: str):
         probes["concurrent_calls_one_cache"] = 1
     if plan.get("short_writes"):
         probes["short_writes"] = 1
+    if plan.get("cache_with_history"):
+        probes["protect_on_cache_with_history"] = 1
 
     def V(clause, cond, detail, ot=None):
         et = ""
@@ -337,7 +353,7 @@ class C17(common.Check):
             "current, corner, previous-L0 and DC-future positions, nonce and public-key mode, both layouts) against the reference DC with "
             "per-plan knobs: 4 hashes x {DH,P256,P384}, SIDs of 1..15 sub-authorities, domain/forest names 0..40 chars incl. non-ASCII, "
             "GKDI port, padding policy, header signing, envelope shape (L2 omitted at 31), DC clock skew, PRNG segmentation and latencies, "
-            "DNS discovery, a DC whose PDUs arrive after pauses of 0.5..6 s, one cache shared by calls in flight at the same time (different L0 epochs), one cache shared by a principal who only receives the public key (protect) and an authorised one (unprotect of that blob), connections reset by the peer inside a handshake message or reply, sockets that take only a few bytes per send(), services that abort or close the connection right after every complete Response, a key service port that refuses the first connection attempt of every operation (failing with that error is accepted, asking for another key is not), security context (StubCtx 1..3 legs / real NTLM / real Negotiate). Each plan runs once per flavour; request log, "
+            "DNS discovery, a DC whose PDUs arrive after pauses of 0.5..6 s, protects without a root key id on a cache that has opened blobs of another root key, one cache shared by calls in flight at the same time (different L0 epochs), one cache shared by a principal who only receives the public key (protect) and an authorised one (unprotect of that blob), connections reset by the peer inside a handshake message or reply, sockets that take only a few bytes per send(), services that abort or close the connection right after every complete Response, a key service port that refuses the first connection attempt of every operation (failing with that error is accepted, asking for another key is not), security context (StubCtx 1..3 legs / real NTLM / real Negotiate). Each plan runs once per flavour; request log, "
             "results and sync-vs-async transcripts are judged; in 30% of the plans the async execution runs all operations at once (the "
             "conversations then interleave under the PRNG scheduler and are compared per connection) and a third execution runs them as "
             "caller threads using the sync API, pre-empted at PRNG-chosen line events inside dpapi_ng. Non-trivial = every plan; distinct = distinct plan.")
@@ -348,7 +364,7 @@ class C17(common.Check):
     assumptions = ["Kerberos is not simulated", "loopback TCP of the statement is replaced by the simulated transport",
                    "ept_map max_towers / handle / referent ids and alloc_hint are recorded, not judged"]
     required_fired = ("unprotect_ok", "protect_seed", "protect_public", "future_key", "non_member_unprotect", "dns", "real_ctx", "l2_omitted",
-                      "pos_corner", "prev_l0", "blob_pub", "concurrent_ops", "thread_ops", "thread_overlap", "slow_dc", "no_cache_argument", "key_port_refused_once", "failed_with_connection_refused", "connection_aborted_after_reply", "shared_cache_two_principals", "concurrent_calls_one_cache", "short_writes", "connection_reset_mid_conversation")
+                      "pos_corner", "prev_l0", "blob_pub", "concurrent_ops", "thread_ops", "thread_overlap", "slow_dc", "no_cache_argument", "key_port_refused_once", "failed_with_connection_refused", "connection_aborted_after_reply", "shared_cache_two_principals", "concurrent_calls_one_cache", "short_writes", "connection_reset_mid_conversation", "protect_on_cache_with_history")
 
     def cases(self, tier, seed):
         rng = prng.stream(seed, "C17")
